@@ -686,3 +686,126 @@ Proof.
   unfold calc_distance, cumsum, seglens, seglen, dist2, sq, cumsum_from. cbn [fst snd oadd osub omul osqrt Rops].
   change (qzero Rops) with 0. repeat f_equal; ring.
 Qed.
+
+(* ------------------------------------------------------------------------------------------------------------ *)
+(* FineContour.interpFunction: where a point at a given poloidal distance is placed                                 *)
+Lemma searchsorted_spec (xp : list R) : forall x i0,
+  let k := searchsorted Rops xp x i0 in
+  (i0 <= k <= i0 + length xp)%nat /\
+  (forall j, (j < k - i0)%nat -> nth j xp 0 < x) /\
+  ((k - i0 < length xp)%nat -> x <= nth (k - i0) xp 0).
+Proof.
+  induction xp as [|a t IH]; intros x i0; cbn [searchsorted length].
+  - cbv zeta. split; [lia|]. split; [intros j Hj; lia|intros Hk; lia].
+  - cbn [olt Rops]. destruct (Rltb a x) eqn:E.
+    + apply Rltb_iff in E. specialize (IH x (S i0)). cbv zeta in IH |- *.
+      set (k := searchsorted Rops t x (S i0)) in *. destruct IH as [Hr [Hlt Hge]].
+      split; [lia|]. split.
+      * intros j Hj. destruct j as [|j]; [exact E|]. cbn [nth]. apply Hlt. lia.
+      * intros Hk. replace (k - i0)%nat with (S (k - S i0)) by lia. cbn [nth]. apply Hge. lia.
+    + apply Rltb_false in E. cbv zeta. replace (i0 - i0)%nat with 0%nat by lia. split; [lia|]. split; [intros j Hj; lia|].
+      intros _. exact E.
+Qed.
+
+(* the segment interp1d uses for x: determined by the abscissae and x alone *)
+Definition seg_lo (xp : list R) (x : R) : nat := (Nat.max 1 (Nat.min (searchsorted Rops xp x 0) (length xp - 1)) - 1)%nat.
+
+Lemma interp_extrap_eq xp fp x :
+  interp_extrap Rops xp fp x =
+    (nth (S (seg_lo xp x)) fp 0 - nth (seg_lo xp x) fp 0) / (nth (S (seg_lo xp x)) xp 0 - nth (seg_lo xp x) xp 0) * (x - nth (seg_lo xp x) xp 0)
+    + nth (seg_lo xp x) fp 0.
+Proof.
+  unfold interp_extrap, seg_lo. change (qzero Rops) with 0. cbn [oadd omul osub odiv Rops].
+  set (hi := Nat.max 1 (Nat.min (searchsorted Rops xp x 0) (length xp - 1))).
+  assert (H1 : (1 <= hi)%nat) by (unfold hi; lia).
+  replace (S (hi - 1)) with hi by lia. reflexivity.
+Qed.
+
+(* inside the range of the abscissae it is the segment that contains x *)
+Theorem seg_lo_spec xp x : incr xp -> (2 <= length xp)%nat -> nth 0 xp 0 <= x <= last xp 0 ->
+  (S (seg_lo xp x) < length xp)%nat /\ nth (seg_lo xp x) xp 0 <= x <= nth (S (seg_lo xp x)) xp 0.
+Proof.
+  intros Hinc Hn [Hlo Hhi]. rewrite last_nth_R in Hhi.
+  pose proof (searchsorted_spec xp x 0%nat) as HS. cbv zeta in HS. unfold seg_lo.
+  set (k := searchsorted Rops xp x 0) in *. destruct HS as [Hr [Hlt Hge]]. replace (k - 0)%nat with k in * by lia.
+  assert (Hk : (k <= length xp - 1)%nat).
+  { destruct (Nat.le_gt_cases k (length xp - 1)) as [L|G]; [exact L|]. exfalso.
+    specialize (Hlt (length xp - 1)%nat ltac:(lia)). lra. }
+  destruct k as [|k'].
+  - specialize (Hge ltac:(lia)). replace (Nat.max 1 (Nat.min 0 (length xp - 1)) - 1)%nat with 0%nat by lia.
+    split; [lia|]. pose proof (Hinc 0%nat ltac:(lia)). lra.
+  - replace (Nat.max 1 (Nat.min (S k') (length xp - 1)) - 1)%nat with k' by lia.
+    split; [lia|]. specialize (Hlt k' ltac:(lia)). specialize (Hge ltac:(lia)). lra.
+Qed.
+
+Lemma len_lerp (a b : RP2) t : 0 <= t <= 1 ->
+  let p := (fst a + t * (fst b - fst a), snd a + t * (snd b - snd a)) in
+  len p a = t * len a b /\ len p b = (1 - t) * len a b.
+Proof.
+  intros Ht p. unfold len, seglen, dist2, sq; cbn.
+  set (dx := fst b - fst a). set (dy := snd b - snd a).
+  split.
+  - replace ((fst a - (fst a + t * dx)) * (fst a - (fst a + t * dx)) + (snd a - (snd a + t * dy)) * (snd a - (snd a + t * dy)))
+      with ((t * t) * (dx * dx + dy * dy)) by ring.
+    rewrite sqrt_mult by nra. rewrite sqrt_square by lra. reflexivity.
+  - replace ((fst b - (fst a + t * dx)) * (fst b - (fst a + t * dx)) + (snd b - (snd a + t * dy)) * (snd b - (snd a + t * dy)))
+      with (((1 - t) * (1 - t)) * (dx * dx + dy * dy)) by (unfold dx, dy; ring).
+    rewrite sqrt_mult by nra. rewrite sqrt_square by lra. reflexivity.
+Qed.
+
+(* the point interpFunction places at distance s from startInd lies on the polygon: on the segment whose distances enclose
+   s, at the fraction where the polygon length is s *)
+Theorem placed_point_on_polygon (pos : list RP2) (dist : list R) si s : incr dist -> length dist = length pos -> (2 <= length pos)%nat ->
+  nth 0 dist 0 <= s + nth si dist 0 <= last dist 0 ->
+  exists lo t, (S lo < length pos)%nat /\ 0 <= t <= 1 /\
+    s + nth si dist 0 = nth lo dist 0 + t * (nth (S lo) dist 0 - nth lo dist 0) /\
+    interp_point Rops pos dist si s =
+      (fst (nth lo pos (0, 0)) + t * (fst (nth (S lo) pos (0, 0)) - fst (nth lo pos (0, 0))),
+       snd (nth lo pos (0, 0)) + t * (snd (nth (S lo) pos (0, 0)) - snd (nth lo pos (0, 0)))).
+Proof.
+  intros Hinc Hl Hn Hr. unfold interp_point. change (qzero Rops) with 0. cbn [osub Rops].
+  set (c := nth si dist 0) in *. set (xs := map (fun d => d - c) dist).
+  assert (Hxl : length xs = length dist) by (unfold xs; apply map_length).
+  assert (Hxn : forall k, (k < length dist)%nat -> nth k xs 0 = nth k dist 0 - c).
+  { intros k Hk. unfold xs. rewrite (nth_indep _ 0 (0 - c)) by (rewrite map_length; exact Hk). apply (map_nth (fun d => d - c)). }
+  assert (Hxinc : incr xs).
+  { intros k Hk. rewrite Hxl in Hk. rewrite !Hxn by lia. pose proof (Hinc k Hk). lra. }
+  assert (Hxr : nth 0 xs 0 <= s <= last xs 0).
+  { rewrite last_nth_R, Hxl, !Hxn by lia. rewrite last_nth_R in Hr. lra. }
+  destruct (seg_lo_spec xs s Hxinc ltac:(lia) Hxr) as [Hlo [Hs1 Hs2]].
+  set (lo := seg_lo xs s) in *. rewrite Hxl in Hlo. rewrite !Hxn in Hs1, Hs2 by lia.
+  pose proof (Hinc lo Hlo) as Hd.
+  exists lo, ((s + c - nth lo dist 0) / (nth (S lo) dist 0 - nth lo dist 0)).
+  assert (Hfst : forall k, (k < length pos)%nat -> nth k (map fst pos) 0 = fst (nth k pos (0, 0))).
+  { intros k Hk. rewrite (nth_indep _ 0 (fst (0, 0))) by (rewrite map_length; exact Hk). apply (map_nth fst). }
+  assert (Hsnd : forall k, (k < length pos)%nat -> nth k (map snd pos) 0 = snd (nth k pos (0, 0))).
+  { intros k Hk. rewrite (nth_indep _ 0 (snd (0, 0))) by (rewrite map_length; exact Hk). apply (map_nth snd). }
+  split; [lia|]. split.
+  - split.
+    + apply Rmult_le_pos; [lra|]. left. apply Rinv_0_lt_compat. lra.
+    + apply (Rmult_le_reg_r (nth (S lo) dist 0 - nth lo dist 0)); [lra|]. unfold Rdiv. rewrite Rmult_assoc, Rinv_l by lra. lra.
+  - split; [field; lra|].
+    rewrite !interp_extrap_eq. fold lo. rewrite !Hxn by lia. rewrite !Hfst, !Hsnd by lia.
+    f_equal; field; lra.
+Qed.
+
+(* round trip: when the nearest fine point and the neighbour getDistance selects are the two ends of that segment (as they are
+   on a gently curved contour), the distance it measures for the placed point is exactly the distance it was placed at *)
+Theorem placed_point_distance_round_trip (pos : list RP2) (dist : list R) lo t :
+  (S lo < length pos)%nat -> 0 <= t <= 1 -> nth lo pos (0, 0) <> nth (S lo) pos (0, 0) ->
+  let a := nth lo pos (0, 0) in let b := nth (S lo) pos (0, 0) in
+  let p := (fst a + t * (fst b - fst a), snd a + t * (snd b - snd a)) in
+  let dfp := map (fun q => len p q) pos in
+  let i1 := argmin Rops dfp in
+  let i2 := second_index Rops pos p i1 in
+  (i1 = lo /\ i2 = S lo) \/ (i1 = S lo /\ i2 = lo) ->
+  get_distance Rops pos dist p = nth lo dist 0 + t * (nth (S lo) dist 0 - nth lo dist 0).
+Proof.
+  intros Hlo Ht Hne a b p dfp i1 i2 Hsel. rewrite get_distance_eq. cbv zeta. fold dfp. fold i1. fold i2.
+  assert (Hnth : forall j, (j < length pos)%nat -> nth j dfp 0 = len p (nth j pos (0, 0))).
+  { intros j Hj. unfold dfp. rewrite (nth_indep _ 0 (len p (0, 0))) by (rewrite map_length; exact Hj).
+    apply (map_nth (fun q => len p q)). }
+  destruct (len_lerp a b t Ht) as [Ha Hb]. cbv zeta in Ha, Hb. fold p in Ha, Hb.
+  pose proof (len_pos a b Hne) as HL.
+  destruct Hsel as [[E1 E2]|[E1 E2]]; rewrite E1, E2, !Hnth by lia; fold a; fold b; rewrite Ha, Hb; field; lra.
+Qed.
